@@ -3,6 +3,7 @@
      S <hex>      user send                 T all,k5,again,err   tx script
      X reset|close|end|i:<item>,<item>...   one rx chunk
      R            run (one xmpp_run_once)   C   connect client + fixed negotiation prefix   D   dumpq
+     O <hex>,<hex>|-   what the connection handler sends on CONNECT (onconnect send:..)
    items: st ot br f1 f0 r a=<dec>|a=bad|a=missing en=<0|1>=<idhex|-> re=<previdhex|->=<h|-> fa=<n|i|f|o>=<h|-> so
    Output: the canonical trace tokens  W<k>:<hex>  SM:<hex|null>  E:connect  E:disconnect  Q[..] SMQ[..]  CRASH *)
 let buf = Buffer.create 4096
@@ -83,6 +84,8 @@ let () = iter_lines (fun line ->
              let (d', o) = exec !bind_text !d (CRx ch) in d := d'; outs o
          | 'R' -> let (d', o) = exec !bind_text !d CRun in d := d'; outs o; flush ()
          | 'C' -> let (d', o) = exec !bind_text !d CConnect in d := d'; outs o
+         | 'O' -> let l = if arg = "-" || arg = "" then [] else List.map zs_of_hex (String.split_on_char ',' arg) in
+                  let (d', o) = exec !bind_text !d (COnConnect l) in d := d'; outs o
          | 'D' -> dumpq (!d).d_st
          | 'L' -> emit "|"
          | _ -> failwith ("cmd " ^ c));
